@@ -281,19 +281,19 @@ func describeDiff(got, want []byte) string {
 // ---- reader scenarios ---------------------------------------------------------------------------
 
 type readerPlan struct {
-	Name    string
-	Conc    int
-	Frame   []byte
-	Content []byte
-	WriteTo bool
-	BufSize int
-	FailAt  int
-	Chunk   int
-	WantErr string // "" clean; "any" some error; else errors.Is class name
-	SinkFail bool  // WriteTo into a sink that fails at its first call (then Reset and reuse)
-	Partial int    // >0: Reset after this many Read calls instead of reading the first stream to its end
-	Reuse   []byte // second frame read after Reset (nil: none)
-	Reuse2  []byte // its content
+	Name     string
+	Conc     int
+	Frame    []byte
+	Content  []byte
+	WriteTo  bool
+	BufSize  int
+	FailAt   int
+	Chunk    int
+	WantErr  string // "" clean; "any" some error; else errors.Is class name
+	SinkFail bool   // WriteTo into a sink that fails at its first call (then Reset and reuse)
+	Partial  int    // >0: Reset after this many Read calls instead of reading the first stream to its end
+	Reuse    []byte // second frame read after Reset (nil: none)
+	Reuse2   []byte // its content
 }
 
 func smallFrame(blockSum, contentSum bool, nblocks int, legacy bool) (frame, content []byte) {
